@@ -21,6 +21,8 @@ func init() {
 			thorough = append(thorough, t)
 		}
 	}
+	quick = append(quick, sc("full", "same", 2, 60))
+	thorough = append(thorough, sc("full", "same", 4, 600), sc("full", "mismatch", 4, 600))
 	for _, s := range []string{"empty", "regions-ttl"} {
 		quick = append(quick, sc(s, "older", 2, 60))
 		thorough = append(thorough, sc(s, "older", 4, 600))
